@@ -186,3 +186,55 @@ Print Assumptions C03_model_peer_fingerprint_is_hash_of_presented_der.
 Theorem C03_model_pyopenssl_fingerprint_is_hash_of_dumped_der : ltac:(let t := type of @Certs_format.pyopenssl_fingerprint_is_hash_of_dumped_der in exact t).
 Proof. exact (@Certs_format.pyopenssl_fingerprint_is_hash_of_dumped_der). Qed.
 Print Assumptions C03_model_pyopenssl_fingerprint_is_hash_of_dumped_der.
+
+(* ---- tie to the code (src/nauyaca/__main__.py: the commands that reach the pin check and the trust store - `get` hands
+   --trust/--no-trust and --verify-ssl to GeminiClient unchanged, TOFU on by default; the `tofu` sub-commands call the TOFUDatabase
+   methods with exactly the host / port / flags given): theorems of coq/Equiv/EquivCliClient.v (statements there), re-checked against
+   the definitions regenerated from /repo's working tree by translate/py2coq_cliclient.py; see DESIGN.md 11.8 ---- *)
+From NV Require Equiv.EquivCliClient.
+Theorem C03_code_cli_get_trust : ltac:(let t := type of @EquivCliClient.cli_get_trust in exact t).
+Proof. exact (@EquivCliClient.cli_get_trust). Qed.
+Print Assumptions C03_code_cli_get_trust.
+Theorem C03_code_cli_get_defaults : ltac:(let t := type of @EquivCliClient.cli_get_defaults in exact t).
+Proof. exact (@EquivCliClient.cli_get_defaults). Qed.
+Print Assumptions C03_code_cli_get_defaults.
+Theorem C03_code_cli_get_options : ltac:(let t := type of @EquivCliClient.cli_get_options in exact t).
+Proof. exact (@EquivCliClient.cli_get_options). Qed.
+Print Assumptions C03_code_cli_get_options.
+(* the certificate-changed error has an except clause of its own and ends the command with status 1 *)
+Theorem C03_code_cli_get_exit_tie : ltac:(let t := type of @EquivCliClient.cli_get_exit_tie in exact t).
+Proof. exact (@EquivCliClient.cli_get_exit_tie). Qed.
+Print Assumptions C03_code_cli_get_exit_tie.
+Theorem C03_code_cli_get_handler_classes : ltac:(let t := type of @EquivCliClient.cli_get_handler_classes in exact t).
+Proof. exact (@EquivCliClient.cli_get_handler_classes). Qed.
+Print Assumptions C03_code_cli_get_handler_classes.
+Theorem C03_code_cli_tofu_trust_tie : ltac:(let t := type of @EquivCliClient.cli_tofu_trust_tie in exact t).
+Proof. exact (@EquivCliClient.cli_tofu_trust_tie). Qed.
+Print Assumptions C03_code_cli_tofu_trust_tie.
+Theorem C03_code_cli_tofu_revoke_tie : ltac:(let t := type of @EquivCliClient.cli_tofu_revoke_tie in exact t).
+Proof. exact (@EquivCliClient.cli_tofu_revoke_tie). Qed.
+Print Assumptions C03_code_cli_tofu_revoke_tie.
+Theorem C03_code_cli_tofu_clear_tie : ltac:(let t := type of @EquivCliClient.cli_tofu_clear_tie in exact t).
+Proof. exact (@EquivCliClient.cli_tofu_clear_tie). Qed.
+Print Assumptions C03_code_cli_tofu_clear_tie.
+Theorem C03_code_cli_tofu_import_tie : ltac:(let t := type of @EquivCliClient.cli_tofu_import_tie in exact t).
+Proof. exact (@EquivCliClient.cli_tofu_import_tie). Qed.
+Print Assumptions C03_code_cli_tofu_import_tie.
+Theorem C03_code_cli_tofu_import_on_conflict_tie : ltac:(let t := type of @EquivCliClient.cli_tofu_import_on_conflict_tie in exact t).
+Proof. exact (@EquivCliClient.cli_tofu_import_on_conflict_tie). Qed.
+Print Assumptions C03_code_cli_tofu_import_on_conflict_tie.
+Theorem C03_code_cli_tofu_export_tie : ltac:(let t := type of @EquivCliClient.cli_tofu_export_tie in exact t).
+Proof. exact (@EquivCliClient.cli_tofu_export_tie). Qed.
+Print Assumptions C03_code_cli_tofu_export_tie.
+Theorem C03_code_cli_tofu_info_tie : ltac:(let t := type of @EquivCliClient.cli_tofu_info_tie in exact t).
+Proof. exact (@EquivCliClient.cli_tofu_info_tie). Qed.
+Print Assumptions C03_code_cli_tofu_info_tie.
+Theorem C03_code_cli_tofu_list_tie : ltac:(let t := type of @EquivCliClient.cli_tofu_list_tie in exact t).
+Proof. exact (@EquivCliClient.cli_tofu_list_tie). Qed.
+Print Assumptions C03_code_cli_tofu_list_tie.
+Theorem C03_code_cli_tofu_defaults : ltac:(let t := type of @EquivCliClient.cli_tofu_defaults in exact t).
+Proof. exact (@EquivCliClient.cli_tofu_defaults). Qed.
+Print Assumptions C03_code_cli_tofu_defaults.
+Theorem C03_code_cli_tofu_options : ltac:(let t := type of @EquivCliClient.cli_tofu_options in exact t).
+Proof. exact (@EquivCliClient.cli_tofu_options). Qed.
+Print Assumptions C03_code_cli_tofu_options.
